@@ -4,6 +4,7 @@ from __future__ import annotations
 
 import json
 from collections.abc import Iterable, Iterator, Mapping
+from copy import deepcopy
 from dataclasses import dataclass, field, replace
 from typing import (
     TYPE_CHECKING,
@@ -675,7 +676,8 @@ class Hugr(Mapping[Node, NodeData], Generic[OpVarCov]):
                 node_data.op,
                 node_parent,
                 num_outs=node_data._num_outs,
-                metadata=node_data.metadata,
+                # a copy: the two HUGRs must not share metadata dictionaries
+                metadata=deepcopy(node_data.metadata),
             )
             stack.extend(reversed(node_data.children))
 
